@@ -56,6 +56,8 @@ MintSim ==
   \E p \in {IF SimProfile = "compact"
              THEN (IF rp <= 3 THEN RandomElement({b \in Ids : Height(b) >= Trunk - 20})           \* forks down to the horizon of a compaction at the trunk head
                    ELSE IF rp <= 5 /\ lv > Trunk THEN Parent(lv) ELSE lv)
+             ELSE IF SimProfile = "orphans"
+             THEN (IF rp <= 5 /\ lv # 0 THEN Parent(lv) ELSE lv)                                  \* siblings at one height, short lines on top
              ELSE IF SimProfile = "deep" /\ rp <= 6 THEN RandomElement({b \in Ids : Height(b) <= 4})   \* fork points far below the head
              ELSE IF SimProfile \in {"respend", "nrd"} /\ rp <= 4 /\ lv # 0 THEN Parent(lv)        \* sibling of the latest valid block
              ELSE IF SimProfile \in {"respend", "nrd"} /\ rp <= 9 THEN lv
@@ -63,7 +65,7 @@ MintSim ==
              ELSE IF rp <= 4 THEN RandomElement(vb)
              ELSE CHOOSE b \in vb : \A x \in vb : x <= b} :
   \E d \in {RandomElement(Diffs)} :
-  \E f0 \in {IF Flags # {} /\ RandomElement(1..6) <= (IF SimProfile = "flags" THEN 3 ELSE 1) THEN RandomElement(Flags) ELSE "ok"} :
+  \E f0 \in {IF Flags # {} /\ RandomElement(1..6) <= (IF SimProfile \in {"flags", "orphans"} THEN 3 ELSE 1) THEN RandomElement(Flags) ELSE "ok"} :
   \E r \in {RandomElement(1..10)} :
   \E bt \in {BalancedTxs(id, Height(p) + 1)} :
   \E u \in {IF p \in vb THEN Replay(p) ELSE GenesisU} :
@@ -108,7 +110,9 @@ DeliverSim ==
      THEN DeliverHeader(CHOOSE b \in hpend : \A x \in hpend : b <= x)
      ELSE
      \E r \in {RandomElement(1..10)} :
-     \E b \in {IF r <= 4 /\ ready2 # {} THEN RandomElement(ready2)
+     \E deepest \in {{x \in fresh : \A y \in fresh : Height(y) <= Height(x)}} :
+     \E b \in {IF SimProfile = "orphans" /\ r <= 7 /\ deepest # {} THEN RandomElement(deepest)       \* children before parents: orphans pile up
+                ELSE IF r <= 4 /\ ready2 # {} THEN RandomElement(ready2)
                 ELSE IF r <= 6 /\ ready # {} THEN RandomElement(ready)
                 ELSE IF r <= 8 /\ fresh # {} THEN RandomElement(fresh)
                 ELSE RandomElement({x \in Ids \ {0} : SimProfile # "compact" \/ x + 30 > Trunk})} :
